@@ -359,6 +359,8 @@ class Interp:
         elif name in mod.imports:
             dotted = mod.imports[name]
             v = self.resolve_import(dotted)
+        elif name == "__name__":
+            v = mod.modname
         else:
             v = self.builtin(name)
         self.module_globals[key] = v
